@@ -203,10 +203,16 @@ def label_strips(t: T, source: T):
     the same labels -- pandas.Series(strip(x), index=x.index) -- is exempt."""
     from ..terms import subterms as _sub
 
-    def selects(x):  # x is source or source[...] / source.loc[...] / source.copy()
+    def selects(x, depth=0):  # x is source, a selection / copy of it, or label-preserving arithmetic on it (source / other, ite)
         while True:
             if x is source:
                 return True
+            if depth < 6 and x.op == "binop":
+                return selects(x.args[1], depth + 1) or selects(x.args[2], depth + 1)
+            if depth < 6 and x.op == "ite":
+                return selects(x.args[1], depth + 1) or selects(x.args[2], depth + 1)
+            if depth < 6 and x.op == "unop":
+                return selects(x.args[1], depth + 1)
             if x.op == "sub":
                 x = x.args[0]
             elif x.op == "attr" and x.args[1] in ("loc", "at", "T"):
